@@ -247,49 +247,44 @@ func runInheritance(c *Ctx) {
 		return
 	}
 	fname := shortName(fn)
-	// the option parameter: the bool parameter of parseStops
-	var opt *ssa.Parameter
-	for _, prm := range fn.Params {
-		if canon(prm) != "" && prm.Type().String() == "bool" {
-			opt = prm
+	// the inheritance flag: a value that is opts.InheritWheelchairBoarding -- read from the options directly, or a bool
+	// parameter that every call site binds to it
+	isFlag := func(v ssa.Value) bool {
+		if strings.HasSuffix(canon(v), ".InheritWheelchairBoarding)") || strings.HasSuffix(canon(v), ".InheritWheelchairBoarding") {
+			return true
 		}
-	}
-	if opt == nil {
-		c.Undecided("INH", fname, "option parameter", p.pos(fn.Pos()), "parseStops has no boolean inheritance parameter")
-		return
-	}
-	// the argument must be opts.InheritWheelchairBoarding at every call site
-	nSites := 0
-	for _, e := range p.Callers(fn) {
-		if false {
-			continue
+		prm, ok := v.(*ssa.Parameter)
+		if !ok || prm.Type().String() != "bool" {
+			return false
 		}
-		nSites++
-		args := e.Site.Common().Args
-		ok := false
-		for i, a := range args {
-			if i < len(fn.Params) && fn.Params[i] == opt && strings.HasSuffix(canon(a), ".InheritWheelchairBoarding)") {
-				ok = true
+		idx := paramIndex(prm)
+		callers := p.Callers(prm.Parent())
+		if len(callers) == 0 {
+			return false
+		}
+		for _, e := range callers {
+			args := e.Site.Common().Args
+			if idx < 0 || idx >= len(args) || !strings.HasSuffix(canon(args[idx]), ".InheritWheelchairBoarding)") {
+				return false
 			}
 		}
-		c.Check(ok, "INH", shortName(e.Caller), "option passed to parseStops", p.ipos(e.Site), "the flag is opts.InheritWheelchairBoarding", "parseStops is not called with opts.InheritWheelchairBoarding as its inheritance flag")
+		return true
 	}
-	if nSites == 0 {
-		c.Undecided("INH", fname, "call sites", p.pos(fn.Pos()), "no call site of parseStops found")
-	}
-	// region guarded by opt == true
+	var flagVals []ssa.Value
 	var region []*ssa.BasicBlock
 	for _, b := range fn.Blocks {
 		for _, ce := range dominatingConds(b) {
-			if ce.Cond == ssa.Value(opt) && ce.Val {
+			if ce.Val && isFlag(ce.Cond) {
 				region = append(region, b)
+				flagVals = append(flagVals, ce.Cond)
 			}
 		}
 	}
 	if len(region) == 0 {
-		c.Undecided("INH", fname, "guarded region", p.pos(fn.Pos()), "no code is guarded by the inheritance flag")
+		c.Undecided("INH", fname, "guarded region", p.pos(fn.Pos()), "no code is guarded by the inheritance option (opts.InheritWheelchairBoarding)")
 		return
 	}
+	c.Proved("INH", fname, "the pass is controlled by opts.InheritWheelchairBoarding", p.pos(fn.Pos()), "the guard is the option itself (or a parameter every caller binds to it)")
 	inRegion := map[*ssa.BasicBlock]bool{}
 	for _, b := range region {
 		inRegion[b] = true
@@ -326,11 +321,16 @@ func runInheritance(c *Ctx) {
 		}
 	}
 	// any use of the option outside of being the guard?
-	for _, r := range *opt.Referrers() {
-		switch r.(type) {
-		case *ssa.If, *ssa.DebugRef:
-		default:
-			c.Violated("INH", fname, "other use of the option", p.ipos(r), "the inheritance flag influences something other than the guarded inheritance pass: "+instrString(r))
+	for _, fv := range flagVals {
+		if fv.Referrers() == nil {
+			continue
+		}
+		for _, r := range *fv.Referrers() {
+			switch r.(type) {
+			case *ssa.If, *ssa.DebugRef:
+			default:
+				c.Violated("INH", fname, "other use of the option", p.ipos(r), "the inheritance flag influences something other than the guarded inheritance pass: "+instrString(r))
+			}
 		}
 	}
 	nStores := 0
